@@ -124,13 +124,27 @@ def validate_interpreter(seed, rounds):
 
 
 def glue_item(args):
-    lvs, names = args
+    lvs, names = args[:2]
+    hist = args[2] if len(args) > 2 else None
     from corankco.algorithms.pairwisebasedalgorithm import PairwiseBasedAlgorithm
     from corankco.kemeny_score_computation import KemenyComputingFactory
     from corankco.ranking import Ranking
     out = []
     n = len(names)
     ds = shapes.build(lvs, names)
+    lvs0 = lvs
+    if hist is not None:
+        # the table is built once (primes whatever the library caches), the dataset is edited in place, the table is built again
+        from vf import sweep
+        from corankco.scoringscheme import ScoringScheme
+        PairwiseBasedAlgorithm.pairwise_cost_matrix(ds.get_positions(), ScoringScheme.get_unifying_scoring_scheme())
+        ds.get_bucket_ids(), ds.universe, ds.unified_rankings()
+        lvs = sweep.apply_history(ds, lvs, names, hist)
+        if hist[0] == "remove":
+            keep = [e for e in range(n) if e != hist[1]]
+            names = [names[e] for e in keep]
+            lvs = tuple(tuple(r[e] for e in keep) for r in lvs)
+            n = len(names)
     if ds.nb_elements != n:
         raise harness.HarnessError("shape does not cover the universe")
     ids = shapes.ids_of(ds, names)
@@ -171,7 +185,8 @@ def glue_item(args):
                         return
 
     def payload(mdl, what, cls):
-        return {"signature": {"site": "pairwise_cost_matrix glue", "class": cls}, "what": what,
+        return {"signature": {"site": "pairwise_cost_matrix glue", "class": cls, "history": hist[0] if hist else None}, "what": what,
+                "history": {"first": shapes.raw_json(lvs0, args[1]), "op": list(hist)} if hist else None,
                 "rankings": shapes.raw_json(lvs, names),
                 "scheme": fork.scheme_values(mdl, B, T) if mdl is not None else [[0, 1, 1, 0, 1, 1], [1, 1, 0, 1, 1, 0]]}
 
@@ -212,6 +227,11 @@ def run(run):
         lvs = (rnd.choice(r4), rnd.choice(r4))
         if all(any(r[e] != -1 for r in lvs) for e in range(4)):
             items.append((lvs, [4, 2, 3, 1]))
+    base = [d for d in shapes.datasets(3, 2) if all(sum(1 for v in r if v != -1) >= 2 for r in d)]
+    for i in range(60 if run.thorough else 16):
+        d = rnd.choice(base)
+        items.append((d + ((-1, -1, -1),), ["b", "a", "c"], ("empty",)) if i % 2 == 0 else (d, [1, 2, 3], ("remove", rnd.randrange(3))))
+    run.bounds["glue histories (build table, edit the dataset in place, build again)"] = 60 if run.thorough else 16
     run.pmap("glue_item", glue_item, items, chunksize=8)
     run.extra["glue_datasets"] = len(items)
 
@@ -235,8 +255,19 @@ def replay(p):
     n = len(names)
     if n == 0:
         return False, "empty universe"
-    ds = Dataset.from_raw_list(shapes.from_json(rj))
     sc = ScoringScheme([[float(x) for x in p["scheme"][0]], [float(x) for x in p["scheme"][1]]])
+    if p.get("history"):
+        from corankco.element import Element
+        ds = Dataset.from_raw_list(shapes.from_json(p["history"]["first"]))
+        PairwiseBasedAlgorithm.pairwise_cost_matrix(ds.get_positions(), ScoringScheme.get_unifying_scoring_scheme())
+        ds.get_bucket_ids(), ds.universe, ds.unified_rankings()
+        if p["history"]["op"][0] == "empty":
+            ds.remove_empty_rankings()
+        else:
+            names0 = sorted({x for r in p["history"]["first"] for b in r for x in b}, key=str)
+            ds.remove_elements({Element(x) for x in names0 if x not in {y for r in rj for b in r for y in b}})
+    else:
+        ds = Dataset.from_raw_list(shapes.from_json(rj))
     B, T = sc.b_vector, sc.t_vector
     lvs = []
     for r in rj:
